@@ -97,6 +97,43 @@ def enumerate_functions(rep, tier, impl):
     rep.sample({"kind": "snapshot", "function": names[len(names) // 2], "pool": POOL[:4]})
 
 
+OPFORMS = ["a0 + a1", "a0 - a1", "a0 * a1", "a0 / a1", "a0 % a1", "a0 == a1", "a0 != a1", "a0 < a1", "a0 <= a1", "a0 > a1", "a0 >= a1", "a0 < a1 < a0", "a0 in a1",
+           "a0 is in a1", "a0 is not in a1", "not a0", "a0 and a1", "a0 or a1", "- a0", "a0[a1]", "a0[a1, 'dflt']", "a0[a1, a1]", "a0[a1, []]", "a0['zz', a1]", "a0[0]",
+           "a0[-1]", "a0[0 to 1]", "a0[1 to]", "a0[a1 to]", "a0->x", "a0->zz", "a0->x->y", "a0 is empty", "a0 is not empty", "a0 is zero", "a0 is list", "a0 is string",
+           "a0 is NULL", "[...a0]", "[...a0, ...a1]", "<<<...a0>>>", "[x for x in a0]", "<<x for x in a0>>", "<<<string(x) => 1 for x in a0>>>", "[x for x in keys a0]",
+           "[x for x in values a0]", "[x for x in entries a0]", "[[x, y] for x in a0 for y in a1]", "[[x, y] for x in a0 also for y in a1]", "for x in a0 do x end",
+           "for x in a0 do for y in a1 do [x, y] end end", "def [p, q] = a0; [p, q]", "def p = 0; def q = 0; [p, q] = a0; [p, q]", "[a0, a1]", "<<a0, a1>>", "<<<'k' => a0, 'l' => a1>>>",
+           "<*m = a0, n = a1*>", "a0 !> string()", "string(a0) + string(a1)", "s('{a0} {a1}')", "if a0 == a1 then a0 else a1", "def f(p, q = a1) [p, q]; f(a0)",
+           "def f(p...) p; f(a0, a1)", "def f(p...) p; f(...a0)", "def f(p) p; f(p = a0)", "a0(a1)", "a1 !> a0()", "do error a0 catch a1 1 end", "do error a0 catch all 2 end",
+           "while a0 == 77 do 1 end", "def t = [a0]; t[0] == a1", "def g() a0; g() == a1"]
+
+
+def enumerate_operators(rep, tier, impl):
+    """every operator and syntactic form that reads its operands, on all pairs of the pool, operands snapshotted before and after"""
+    I = impl.new_interpreter(False, False)
+    n = 0
+    changed = {}
+    for f in OPFORMS:
+        for i, j in itertools.product(range(len(POOL)), repeat=2):
+            prog = "def a0 = %s; def a1 = %s; def before = string([a0, a1]); do %s catch all NULL end; [before, string([a0, a1])]" % (POOL[i], POOL[j], f)
+            I.environment = I.base_environment.newEnv()
+            out = impl.run_src(I, prog, seconds=2.0)
+            n += 1
+            if out[0] != "val":
+                if out[0] != "syntax":
+                    changed.setdefault(f, (prog, "gives %s" % (out[:2],)))
+                continue
+            half = out[1][len("(list "):-1].split(") (s")
+            if len(half) == 2 and half[0] + ")" != "(s" + half[1]:
+                changed.setdefault(f, (prog, "changes an operand"))
+    for f, (prog, what) in sorted(changed.items()):
+        rep.violation("input", "the form %s %s: %s" % (f, what, prog), check="operator", function=f, program=prog, want="operands unchanged")
+    rep.count(n)
+    rep.cov["operator_forms"] = len(OPFORMS)
+    rep.cov["operator_programs"] = n
+    rep.oblige("%d operator / syntactic forms x %d operand pairs leave their operands unchanged" % (len(OPFORMS), len(POOL) ** 2), not changed, "%d forms change an operand" % len(changed))
+
+
 def oracle(rep, rnd, tier, impl):
     cases = [
         ("def a = [1, 2]; def b = a; append(b, 3); def m = <<<1 => a>>>; append(m[1], 4); def f(p) append(p, 5); f(a); [a, b, m[1]]",
@@ -116,6 +153,7 @@ def oracle(rep, rnd, tier, impl):
     n = evalcheck.programs_oracle(rep, impl, cases, "scenario")
     rep.cov["scenario_cases"] = n
     enumerate_functions(rep, tier, impl)
+    enumerate_operators(rep, tier, impl)
 
 
 def main(tier, seed, replay=None):
